@@ -608,6 +608,9 @@ fn c02(tier: &str) -> i32 {
         jobs.push(j);
     }
     run_e1(jobs, &|cx, rep, _| props_e1::check_c02(cx, rep), &mut rep);
+    // the sender's own unconfirmed message in another group of the same client, across a rollback in this one
+    scripted::c02_own_message_in_other_group(&mut rep, lab::Bk::Memory);
+    scripted::c02_own_message_in_other_group(&mut rep, lab::Bk::Sqlite);
     rep.finish()
 }
 
